@@ -8,7 +8,9 @@ resolvers await controller-owned futures on a private event loop.
 
 API (everything else in this file is private)
 ---------------------------------------------
-    ctl = PoolController()            # or LoopController()
+    ctl = PoolController()            # or LoopController(), or PromiseController(): a hand-written
+                                      #   promise-style implementation of the public Runtime ABC
+                                      #   (self-flattening deferreds, unwrap_value = identity)
     ctl.runtime                       # the py_gql runtime to pass as runtime=...
     ctl.events                        # list of [kind, label] in the order they
                                       #   happened: ["invoke", l] when a call is
@@ -76,6 +78,7 @@ from concurrent.futures import Executor as _CFExecutor, Future, ThreadPoolExecut
 
 from py_gql.execution.runtime import AsyncIORuntime, ThreadPoolRuntime
 from py_gql.execution.runtime import threadpool as _tp
+from py_gql.execution.runtime.base import Runtime as _RuntimeABC
 
 
 class Hang(BaseException):
@@ -467,3 +470,190 @@ def explore(run_once, limit, rng=None, samples=0, stop=None):
         for _ in range(samples):
             results.append(run_once(lambda labels: labels[rng.randrange(len(labels))]))
     return results, exhaustive
+
+
+# ------------------------------------------------------------------ a third-party runtime
+class Deferred:
+    """a hand-driven promise: resolve / reject once, then-callbacks run synchronously in
+    registration order, and resolving with another Deferred *adopts* its outcome -- a deferred
+    never holds a deferred, so the runtime's unwrap_value can be the identity"""
+
+    _registry = None
+
+    def __init__(self):
+        self.state = "pending"
+        self.value = None
+        self._cbs = []
+        if Deferred._registry is not None:
+            Deferred._registry.append(self)
+
+    def done(self):
+        return self.state != "pending"
+
+    def then(self, on_ok, on_err):
+        if self.state == "pending":
+            self._cbs.append((on_ok, on_err))
+        elif self.state == "ok":
+            on_ok(self.value)
+        else:
+            on_err(self.value)
+
+    def resolve(self, value):
+        if self.state != "pending":
+            return
+        if isinstance(value, Deferred):
+            value.then(self.resolve, self.reject)
+            return
+        self.state, self.value = "ok", value
+        cbs, self._cbs = self._cbs, []
+        for on_ok, _e in cbs:
+            on_ok(value)
+
+    def reject(self, err):
+        if self.state != "pending":
+            return
+        self.state, self.value = "err", err
+        cbs, self._cbs = self._cbs, []
+        for _o, on_err in cbs:
+            on_err(err)
+
+
+class PromiseRuntime(_RuntimeABC):
+    """an implementation of the public py_gql Runtime ABC over Deferred (not one of the
+    library's runtimes): submitted calls are parked in the controller"""
+
+    def __init__(self, ctl):
+        self._ctl = ctl
+
+    def submit(self, fn, /, *args, **kwargs):
+        return self._ctl._park(self._ctl.label_of(fn, args, kwargs), fn, args, kwargs)
+
+    def ensure_wrapped(self, value):
+        if isinstance(value, Deferred):
+            return value
+        d = Deferred()
+        d.resolve(value)
+        return d
+
+    def gather_values(self, values):
+        values = list(values)
+        pending = [v for v in values if isinstance(v, Deferred)]
+        if not pending:
+            return values
+        outer = Deferred()
+        left = [len(pending)]
+
+        def on_ok(_v):
+            left[0] -= 1
+            if left[0] == 0 and not outer.done():
+                outer.resolve([v.value if isinstance(v, Deferred) else v for v in values])
+
+        for d in pending:
+            d.then(on_ok, outer.reject)
+        return outer
+
+    def map_value(self, value, then, else_=None):
+        def call(fn, arg):
+            try:
+                return ("ok", fn(arg))
+            except Exception as err:  # noqa
+                if else_ is not None and isinstance(err, else_[0]):
+                    return ("ok", else_[1](err))
+                return ("err", err)
+
+        if not isinstance(value, Deferred):
+            kind, res = call(then, value)
+            if kind == "err":
+                raise res
+            return res
+        target = Deferred()
+
+        def settle(kind_res):
+            (target.resolve if kind_res[0] == "ok" else target.reject)(kind_res[1])
+
+        def on_err(err):
+            if else_ is not None and isinstance(err, else_[0]):
+                settle(call(else_[1], err))
+            else:
+                target.reject(err)
+
+        value.then(lambda v: settle(call(then, v)), on_err)
+        return target
+
+    def unwrap_value(self, value):
+        return value     # deferreds flatten themselves
+
+    def wrap_callable(self, func):
+        import functools
+        return functools.partial(self.submit, func)
+
+
+class PromiseController(_Base):
+    """same driving API as PoolController, over PromiseRuntime"""
+
+    def __init__(self):
+        super().__init__()
+        self._parked = []
+        self._deferreds = []
+        Deferred._registry = self._deferreds
+        self.runtime = PromiseRuntime(self)
+        self._top = None
+        self._first = []
+
+    label_of = PoolController.label_of
+
+    def _park(self, label, fn, args, kwargs):
+        d = Deferred()
+        self._parked.append((label, d, fn, args, kwargs))
+        self.events.append(["invoke", label])
+        return d
+
+    def defer(self, label, fn, /, *args, **kwargs):
+        return self._park(label, fn, args, kwargs)
+
+    def start(self, thunk):
+        try:
+            r = thunk()
+        except Exception as e:
+            self._result = ("raised", e)
+            return
+        if isinstance(r, Deferred):
+            self._top = r
+            r.then(lambda v: self._first.append(("ok", v)), lambda e: self._first.append(("raised", e)))
+        else:
+            self._result = ("ok", r)
+
+    def parked(self):
+        return [p[0] for p in self._parked]
+
+    def complete(self, label):
+        for i, p in enumerate(self._parked):
+            if p[0] == label:
+                _l, d, fn, args, kwargs = self._parked.pop(i)
+                break
+        else:
+            raise KeyError(label)
+        try:
+            r = fn(*args, **kwargs)
+        except Exception as e:  # noqa
+            self.events.append(["finish", label])
+            d.reject(e)
+        else:
+            self.events.append(["finish", label])
+            d.resolve(r)
+
+    def outcome(self):
+        if self._top is not None:
+            if not self._top.done():
+                return ("pending", None)
+            return ("ok", self._top.value) if self._top.state == "ok" else ("raised", self._top.value)
+        return self._result
+
+    def first_outcome(self):
+        return self._first[0] if self._first else None
+
+    def leftover(self):
+        return sum(1 for d in self._deferreds if not d.done())
+
+    def close(self):
+        Deferred._registry = None
